@@ -257,7 +257,7 @@ def tree(block, conv):
             # every core runs the dealloc; against the DM / compute op still using the buffer it acts like a
             # write from a third party (pseudo core 2)
             out.append(("RLeaf", conv.oid(op), 2, False, [], [root_of(op.operands[0], conv)]))
-        elif n == "scf.yield":
+        elif n == "scf.yield" and op.parent_op().name == "scf.for":
             continue
         else:
             if any(True for r in op.regions for b in r.blocks for _ in b.ops):
@@ -296,7 +296,7 @@ def tree_final(block, conv, core=None):
                 wr = [root_of(v, conv) for v in op.outputs if is_memref(v)]
             for c in ([core] if core is not None else [0, 1]):
                 out.append(("RLeaf", conv.oid(op), c, False, rd, wr))
-        elif n == "scf.yield":
+        elif n == "scf.yield" and op.parent_op().name == "scf.for":
             continue
         else:
             if any(True for r in op.regions for b in r.blocks for _ in b.ops):
@@ -315,6 +315,53 @@ def coq_tree(t):
     return coqlist(st(s) for s in t)
 
 
+def cnode(op, conv):
+    return (conv.oid(op), kind_of(op), [conv.vid(v) for v in op.operands], [conv.vid(v) for v in op.results])
+
+
+def ctree(block, conv):
+    """the input program as a tree with SSA information (coq/Model/C13Tree.v cstmt)"""
+    out = []
+    ops = list(block.ops)
+    for op in ops:
+        if op.name == "scf.for":
+            body = op.body.block
+            last = body.last_op
+            inner_ops = [o for o in body.ops if o is not last]
+            sub = ctree_ops(inner_ops, conv)
+            out.append(("CFor", cnode(op, conv), sub, cnode(last, conv)))
+        elif op.name == "scf.if":
+            th = ctree(op.true_region.block, conv)
+            el = ctree(op.false_region.block, conv) if op.false_region.blocks else []
+            out.append(("CIf", cnode(op, conv), th, el))
+        else:
+            inner = [(conv.oid(i.parent_op()), cnode(i, conv)) for i in op.walk() if i is not op]
+            out.append(("CLeaf", cnode(op, conv), inner))
+    return out
+
+
+def ctree_ops(ops, conv):
+    class _B:  # a block-like view of a list of ops
+        def __init__(self, ops):
+            self.ops = ops
+    return ctree(_B(ops), conv)
+
+
+def coq_node(n):
+    return f"(mkN {zlit(n[0])} {n[1]} {vlib.zlist(n[2])} {vlib.zlist(n[3])})"
+
+
+def coq_ctree(t):
+    def st(s):
+        if s[0] == "CLeaf":
+            inner = coqlist(f"({zlit(p)}, {coq_node(n)})" for p, n in s[2])
+            return f"CLeaf {coq_node(s[1])} {inner}"
+        if s[0] == "CFor":
+            return f"CFor {coq_node(s[1])} {coq_ctree(s[2])} {coq_node(s[3])}"
+        return f"CIf {coq_node(s[1])} {coq_ctree(s[2])} {coq_ctree(s[3])}"
+    return coqlist(st(s) for s in t)
+
+
 def run_real(text):
     """returns (flat input, set of op ids the real pass put a barrier before, tree of the real output, conv)"""
     from snaxc.transforms.insert_sync_barrier import InsertSyncBarrier
@@ -322,6 +369,9 @@ def run_real(text):
     fop = find_func(mod)
     conv = Conv()
     flat = conv.flat(fop)
+    conv.root = conv.oid(fop)
+    conv.nblocks = len(fop.body.blocks)
+    conv.ct = [s for b in fop.body.blocks for s in ctree(b, conv)]
     known_ops = set(conv.op_ids)
     InsertSyncBarrier().apply(mc_ir.xctx(), mod)
     mod.verify()
@@ -336,7 +386,7 @@ def run_real(text):
     return flat, sorted(bars), t, conv, mod
 
 
-HEADER = "From Snax Require Import Base.Prelude Model.MultiCore Model.C13SyncBarrier Model.C13Paths.\n"
+HEADER = "From Snax Require Import Base.Prelude Model.MultiCore Model.C13SyncBarrier Model.C13Paths Model.C13Tree.\n"
 
 
 def nontrivial(flat):
@@ -358,28 +408,44 @@ def correspondence(ctx):
     for i in range(n):
         text = gen_case(rng, adversarial=(i % 3 == 2))
         try:
-            flat, bars, _, _, _ = run_real(text)
+            flat, bars, t, conv, _ = run_real(text)
         except Unsupported as e:
             dis.append({"name": "L1:convert", "detail": str(e), "text": text})
             continue
         except Exception as e:
             dis.append({"name": "L1:pass-crash", "detail": repr(e)[:300], "text": text})
             continue
-        cases.append(f"({coq_flat(flat)}, {vlib.zlist(bars)})")
+        cases.append(f"({coq_flat(flat)}, {vlib.zlist(bars)}, {zlit(conv.root)}, {coq_ctree(conv.ct)}, {coq_tree(t)})")
         meta.append({"text": text, "real_barriers_before": bars})
         ctx.count({"ops": len(flat), "barriers": len(bars)}, nontrivial(flat), text, f"bars={min(len(bars), 6)}")
     shards = [cases[i:i + SH] for i in range(0, len(cases), SH)]
-    texts = [HEADER + f"Definition cs : list (list opinfo * list Z) := {coqlist(sh)}.\n"
-             "Eval vm_compute in failing (fun c => let b := barriers (fst c) in "
-             "forallb (fun x => memb x (snd c)) b && forallb (fun x => memb x b) (snd c)) cs.\n" for sh in shards]
+    texts = [HEADER + f"Definition cs : list (list opinfo * list Z * Z * list cstmt * list rstmt) := {coqlist(sh)}.\n"
+             # (1) barrier positions of the real pass = the model's walk
+             "Eval vm_compute in failing (fun c => match c with (fl, bs, p0, T, t) => let b := barriers fl in "
+             "forallb (fun x => memb x bs) b && forallb (fun x => memb x b) bs end) cs.\n"
+             # (2) the pre-order list the real walk visits = flatl of the program tree read off the IR
+             "Eval vm_compute in failing (fun c => match c with (fl, bs, p0, T, t) => list_eqb opinfo_eqb (flatl p0 false 0 T) fl end) cs.\n"
+             # (3) the program tree of the real output = outl of the modelled pass (same nesting, ops, barrier places)
+             "Eval vm_compute in failing (fun c => match c with (fl, bs, p0, T, t) => rshapel_eqb (outl (barriers fl) T) t end) cs.\n"
+             # statistics: programs wholly in the SameLevel class (C13_tree_pass_all_guarded applies)
+             "Eval vm_compute in failing (fun c => match c with (fl, bs, p0, T, t) => negb (sl_program p0 T) end) (firstn 8 cs).\n"
+             for sh in shards]
     res = vlib.coq_eval_many("c13l1_", texts, timeout=600)
+    nsl = 0
     for si, (ok, out) in enumerate(res):
         lists = vlib.parse_all_eval_lists(out)
-        if not ok or len(lists) != 1:
+        if not ok or len(lists) != 4:
             dis.append({"name": "L1:cases-file", "detail": out[-1500:]})
             continue
         for idx in lists[0]:
             dis.append({"name": "L1:barrier-positions", **meta[si * SH + idx]})
+        for idx in lists[1]:
+            dis.append({"name": "L1:flatten (tree vs pre-order walk)", **meta[si * SH + idx]})
+        for idx in lists[2]:
+            dis.append({"name": "L1:output-tree shape", **meta[si * SH + idx]})
+        nsl += len(lists[3])
+    ctx.extra["L1_programs_in_SameLevel_class"] = nsl
+    ctx.extra["L1_programs_classified"] = sum(min(8, len(sh)) for sh in shards)
     return dis
 
 
